@@ -511,7 +511,12 @@ def backtrack (st : Store) : Nat → AnyOp → Rel → Engine → Except Err (Re
             -- the commuted replacement may rely on a column only `first` would have provided
             let repl := if !done && !(second.columnsRequired.subset u.columns) then cur else second
             let res ← repl.finishApply u
-            return (.new (res.get u), done && cdone)
+            let r := res.get u
+            -- `first` only partly inserted: columns this operation had removed must not leak
+            if !done && !(r.columns.subset ccols) then
+              let res2 ← (UOp.proj (r.columns.inter ccols)).finishApply r
+              return (.new (res2.get r), done && cdone)
+            return (.new r, done && cdone)
       | .binary .. => .ok (.same, false)
       | .transfer oid dest target =>
         if target.engine == pref then do
